@@ -21,6 +21,7 @@ def smallTree : Val → Prop
   | .zstk _ => True
   | .zcnd _ => True
   | .anys _ => True
+  | .opv _ => True
 def smallL : List Val → Prop
   | [] => True
   | x :: xs => smallTree x ∧ smallL xs
@@ -81,6 +82,7 @@ theorem alloc_ok : ∀ (t : Val) (H0 : Heap), WF H0 → smallTree t →
   | .zstk f, H0, hwf, _ => ⟨⟨[], by simp [alloc]⟩, hwf, trivial, rfl⟩
   | .zcnd f, H0, hwf, _ => ⟨⟨[], by simp [alloc]⟩, hwf, trivial, rfl⟩
   | .anys xs, H0, hwf, _ => ⟨⟨[], by simp [alloc]⟩, hwf, trivial, rfl⟩
+  | .opv o, H0, hwf, _ => ⟨⟨[], by simp [alloc]⟩, hwf, trivial, rfl⟩
   | .stk f c xs, H0, hwf, hs => by
     simp only [smallTree] at hs
     obtain ⟨⟨ext, he⟩, hwf1, hok, hmap, hlen⟩ := allocL_ok xs H0 hwf hs.2
